@@ -481,6 +481,8 @@ int main(int argc, char **argv) {
         // username length 4 -> 68 (bit 6 of byte 23) hides MESSAGE-INTEGRITY and FINGERPRINT from the walk
         GMsg g; g.type = 1; g.id = QByteArray(12, 'i'); g.username = QByteArray("abcd");
         runMessage(c, g, QByteArray("secret"), true, 1);
+        // a 100-byte key: MESSAGE-INTEGRITY differs from RFC 2104, and keys that differ behind byte 64 are interchangeable
+        runMessage(c, g, k100, false, 0);
     }
 
     // ---- 1. HMAC and CRC helpers directly: every key length 0..300
